@@ -48,16 +48,22 @@ def rawValue (be : Bool) (vr : VR) (v : PValue) : Bytes :=
 /-- text compares by its text, component-wise, ignoring trailing padding -/
 def textCanon (b : Bytes) : List Bytes := (splitBackslash b).map trimTrail
 
-/-- "equal values up to trailing padding; textual numbers and dates compare by their text" -/
-def valueEq (be : Bool) (vr vr' : VR) (v v' : PValue) : Bool :=
+/-- "equal values up to trailing padding; textual numbers and dates compare by their text".
+Binary values: same bytes on the wire (up to the NUL pad) and the same kind of numbers; bytes held as
+`U8` may come back as words (or the reverse) provided the *in-memory* (native, little-endian) bytes are
+the same — `strict = false` drops that last requirement (used only to classify a recorded finding). -/
+def valueEq (strict : Bool) (be : Bool) (vr vr' : VR) (v v' : PValue) : Bool :=
   let a := rawValue be vr v
   let b := rawValue be vr' v'
   if isTextual v || isTextual v' || vr = .DS || vr = .IS then
     textCanon a == textCanon b || trimTrail a == trimTrail b
   else
-    -- binary: same bytes (up to the NUL pad) and, when the VR is unchanged, the same kind of numbers
-    (a == b || (a.length % 2 == 1 && b == a ++ [0])) &&
-    (vr != vr' || a.isEmpty || valueKind v == valueKind v')
+    let padEq := fun (x y : Bytes) => x == y || (x.length % 2 == 1 && y == x ++ [0])
+    let na := (encodePrimitive false v).1
+    let nb := (encodePrimitive false v').1
+    padEq a b &&
+    (a.isEmpty || valueKind v == valueKind v' ||
+      ((valueKind v == "u8" || valueKind v' == "u8") && (!strict || padEq na nb)))
 
 def fragEq (a b : Bytes) : Bool := a == b || (a.length % 2 == 1 && b == a ++ [0])
 
@@ -71,19 +77,19 @@ def expectVr (ts : Syntax) (dict : Tag → Option VR) (t : Tag) (vr : VR) : VR :
   if ts.explicit then vr else resolveImplicitVr dict t
 
 mutual
-def elemRt (ts : Syntax) (dict : Tag → Option VR) : Elem → Elem → Bool
+def elemRt (strict : Bool) (ts : Syntax) (dict : Tag → Option VR) : Elem → Elem → Bool
   | .prim t vr _ v, .prim t' vr' _ v' =>
-    t == t' && vr' == expectVr ts dict t vr && valueEq ts.bigEndian vr vr' v v'
-  | .seq t _ its, .seq t' _ its' => t == t' && itemsRt ts dict its its'
+    t == t' && vr' == expectVr ts dict t vr && valueEq strict ts.bigEndian vr vr' v v'
+  | .seq t _ its, .seq t' _ its' => t == t' && itemsRt strict ts dict its its'
   | .pix bot fr, .pix bot' fr' => bot == bot' && listAll2 fragEq fr fr'
   | _, _ => false
-def itemsRt (ts : Syntax) (dict : Tag → Option VR) : Items → Items → Bool
+def itemsRt (strict : Bool) (ts : Syntax) (dict : Tag → Option VR) : Items → Items → Bool
   | .nil, .nil => true
-  | .cons _ es r, .cons _ es' r' => elemsRt ts dict es es' && itemsRt ts dict r r'
+  | .cons _ es r, .cons _ es' r' => elemsRt strict ts dict es es' && itemsRt strict ts dict r r'
   | _, _ => false
-def elemsRt (ts : Syntax) (dict : Tag → Option VR) : Elems → Elems → Bool
+def elemsRt (strict : Bool) (ts : Syntax) (dict : Tag → Option VR) : Elems → Elems → Bool
   | .nil, .nil => true
-  | .cons e r, .cons e' r' => elemRt ts dict e e' && elemsRt ts dict r r'
+  | .cons e r, .cons e' r' => elemRt strict ts dict e e' && elemsRt strict ts dict r r'
   | _, _ => false
 end
 
@@ -179,9 +185,11 @@ def judge (tsTok : String) (ts : Syntax) (dict : Tag → Option VR) (tree : Elem
     let rtResult : Except String Unit :=
       match r with
       | .tree t' =>
-        if elemsRt ts dict tree t' then .ok ()
+        if elemsRt true ts dict tree t' then .ok ()
+        else if ts.bigEndian && elemsRt false ts dict tree t' then
+          fail "ow-bytes-swapped-big-endian" "bytes held as U8 under a word VR are written unswapped in Big Endian and come back pairwise swapped"
         else if notDeflated then fail "deflated-options-api-not-deflated" "the options API wrote a plain Explicit VR LE stream"
-        else if elemsRt ts dict (elemsDropEmptyFrags tree) t' then
+        else if elemsRt true ts dict (elemsDropEmptyFrags tree) t' then
           fail "empty-fragment-dropped" "a zero-length pixel fragment is missing after reading"
         else fail "roundtrip-mismatch" ""
       | .nothing => fail "write-failed" ""
@@ -222,7 +230,8 @@ def handle (line : String) : String :=
         -- prefer an unclassified / non-recorded failure, then PROP-FAIL over MODEL-DIFF
         let all := m :: rest
         (all.find? fun x => x.startsWith "PROP-FAIL" && !(x.splitOn "class=deflated-options-api-not-deflated").length > 1
-            && !(x.splitOn "class=empty-fragment-dropped").length > 1)
+            && !(x.splitOn "class=empty-fragment-dropped").length > 1
+            && !(x.splitOn "class=ow-bytes-swapped-big-endian").length > 1)
           |>.getD ((all.find? fun x => x.startsWith "PROP-FAIL").getD m)
       | [] =>
         let prims := elemsPrims tree
